@@ -139,6 +139,24 @@ def replay_ser(state):
         pass
     except Exception as exc:  # noqa
         obs["jx_err"] = type(exc).__name__ + ": " + str(exc)[:160]
+    # an inherited class, serialized AFTER its parent was (C03 names inherited classes): the
+    # subclass adds a required property, so its document must not be the parent's
+    try:
+        from statham.schema.elements.meta import ObjectMeta as _OM3
+        if isinstance(el, _OM3):
+            ns = {"Parent": el, "Property": __import__("statham.schema.property", fromlist=["Property"]).Property,
+                  "String": __import__("statham.schema.elements", fromlist=["String"]).String}
+            exec("class Child(Parent):\n    zq = Property(String(), required=True)\n", ns)  # noqa: S102
+            child = ns["Child"]
+            obs["child_kinds"] = [drive.call(child, v)[0] for v in pyvals]
+            jc = serialize_json(child)
+            json.dumps(jc)
+            obs["jc"] = jc
+            obs["jc_tagged"] = codec.py_to_tagged(jc)
+    except ValueError:
+        pass
+    except Exception as exc:  # noqa
+        obs["jc_err"] = type(exc).__name__ + ": " + str(exc)[:160]
     try:
         j1, el1 = _reparse(copy.deepcopy(j0))
         obs["j1"] = j1
@@ -353,6 +371,14 @@ def run(pid, tier, replay_file=None):
             elif "jd_tagged" in ob:
                 add_event(si, "C03defs", '[id |-> @ID@, p |-> "C03", j |-> %s, kinds |-> %s]'
                           % (tlajson_to_tla(ob["jd_tagged"]), kinds))
+            if "jc_err" in ob:
+                rep.violation(("C03", "serialize-subclass-raises", sig),
+                              f"serialize_json(<subclass>) fails for a subclass of {sjson(st)}: {ob['jc_err']}",
+                              dict(state=st, observed=_slim(ob)))
+            elif "jc_tagged" in ob:
+                ck = "<<" + ", ".join(codec.tla_str(k) for k in ob["child_kinds"]) + ">>"
+                add_event(si, "C03child", '[id |-> @ID@, p |-> "C03", j |-> %s, kinds |-> %s]'
+                          % (tlajson_to_tla(ob["jc_tagged"]), ck))
             if "jx_err" in ob:
                 rep.violation(("C03", "serialize-several-elements-raises", sig),
                               f"serialize_json(<inner class>, <tree>) fails for {sjson(st)}: {ob['jx_err']}",
@@ -425,8 +451,8 @@ def run(pid, tier, replay_file=None):
             st, ob = states[si], observations[si]
             clause = rejected[eid]
             if pid == "C03":
-                jj = ob.get("jd") if tag == "C03defs" else ob.get("jv") if tag == "C03dsl" else ob.get("jx") if tag == "C03multi" else ob["j0"]
-                msg = (f"serialize_json{' with caller-supplied definitions' if tag == 'C03defs' else ' (an inner class first, the whole tree second)' if tag == 'C03multi' else ' of the DSL variant with an explicit required list' if tag == 'C03dsl' else ''} of the element parsed from {sjson(st)} gives "
+                jj = ob.get("jd") if tag == "C03defs" else ob.get("jv") if tag == "C03dsl" else ob.get("jx") if tag == "C03multi" else ob.get("jc") if tag == "C03child" else ob["j0"]
+                msg = (f"serialize_json{' with caller-supplied definitions' if tag == 'C03defs' else  ' (an inner class first, the whole tree second)' if tag == 'C03multi' else ' of a subclass adding the required property zq (serialized after its parent)' if tag == 'C03child' else ' of the DSL variant with an explicit required list' if tag == 'C03dsl' else ''} of the element parsed from {sjson(st)} gives "
                        f"{json.dumps(jj)[:240]}: {clause}")
                 key = ("C03", clause, tag, _kwsig_json(jj))
             elif pid == "C06":
